@@ -130,5 +130,8 @@ func init() {
 		sink.passthru = true
 	}
 	rlog.StdLog = rlog.New(rlog.NopCloser(sink), "")
+	if os.Getenv("VERIF_LOG_DEBUG") == "" {
+		rlog.StdLog.SetLevel(rlog.LEVEL_INFO) // all levels are exercised by the C19 driver
+	}
 	installAbortHook()
 }
